@@ -112,9 +112,17 @@ def shards(tier):
 
 
 def run_shard(spec, ctx):
-    n = ctx.pick(500, 9000)
+    # measured single-process cost incl. generation: ~11 ms per case (quick sizes), ~16 ms (thorough sizes)
+    n = ctx.pick(2400, 36000)
     strat = tsets.hierarchies(max_depth=ctx.pick(3, 4), max_blocks=ctx.pick(4, 5), size=ctx.pick(3, 4))
-    return core.hyp_shard(strat, check_case, ctx, n, tag="inherit")
+    rec = core.Rec()
+    chunk = 6000  # several seeded Hypothesis runs per shard keep each run's example database small
+    done = 0
+    while done < n and not rec.violations:
+        m = min(chunk, n - done)
+        core.hyp_shard(strat, check_case, ctx, m, rec=rec, tag="inherit-%d" % done)
+        done += m
+    return rec
 
 
 FLOORS = {
